@@ -1522,8 +1522,18 @@ class composite_if(x12_node):
                 self.name, self.refdes)
             errh.ele_error('3', err_str, None, self.refdes)
             valid = False
+        type_list = []
         for i in range(min(len(comp_data), self.get_child_count())):
-            valid &= self.get_child_node_by_idx(i).is_valid(comp_data[i], errh)
+            child_node = self.get_child_node_by_idx(i)
+            if child_node.data_ele == '1250':
+                # a date time period format qualifier governs the 1251 component that follows,
+                # as it does for simple elements of a segment
+                if comp_data[i].get_value() in child_node.valid_codes:
+                    type_list = [comp_data[i].get_value()]
+            if child_node.data_ele == '1251' and len(type_list) > 0:
+                valid &= child_node.is_valid(comp_data[i], errh, type_list)
+            else:
+                valid &= child_node.is_valid(comp_data[i], errh)
         for i in range(min(len(comp_data), self.get_child_count()), self.get_child_count()):
             if i < self.get_child_count():
                 #Check missing required elements
